@@ -278,6 +278,8 @@ Proof.
   destruct HI as [A B]. apply (run_inv 4%nat fc_l _ fc_l_ok B A).
 Qed.
 
+Print Assumptions fc_l_ok.
+Print Assumptions C04_pool_fee_change_nonvacuous.
 Print Assumptions C04_amp_between.
 Print Assumptions C04_amp_linear.
 Print Assumptions C04_amp_monotone.
